@@ -342,8 +342,8 @@ def correspond(model: core.Model, backend: str, pos: str, v: Any, r, calib: Cali
 # --------------------------------------------------------------------------------------------
 # generators
 # --------------------------------------------------------------------------------------------
-SPECIAL = ['"', "\\", "\n", "\t", "\r", "\0", "\x01", "\x1f", "\x7f", "\x0b", "\x0c", "é", "€", "😀", "\x80", "'", "?", "%", "{", "}", " ", "$", "#", "/", "*"]
-FRAGMENTS = ['\\n', '\\"', '\\\\', '\\x41', '\\101', '\\1', '\\g<0>', '"));//', '");', '"+"', "collection_name", "moment_name", "obj_j", "\\u00e9", "??/", "%s", "{0}", "\\"]
+SPECIAL = ["\u2028", "\u2029", "\x85", '"', "\\", "\n", "\t", "\r", "\0", "\x01", "\x1f", "\x7f", "\x0b", "\x0c", "é", "€", "😀", "\x80", "'", "?", "%", "{", "}", " ", "$", "#", "/", "*"]
+FRAGMENTS = ["//", "/*", "*/", "// x", '\\n', '\\"', '\\\\', '\\x41', '\\101', '\\1', '\\g<0>', '"));//', '");', '"+"', "collection_name", "moment_name", "obj_j", "\\u00e9", "??/", "%s", "{0}", "\\"]
 BASES = ["AntiKt4EMTopoJets", "pt", "jet_pt", "muons", "CalibratedMuons", "a", "EMFrac", "my tree", "x1"]
 EXH_ALPHABET = ["a", '"', "\\", "\n", "0", "n", " ", "é"]
 
